@@ -299,7 +299,7 @@ func verifyServerExtensions(copts *compressionOptions, h http.Header) (*compress
 			copts.serverNoContextTakeover = true
 			continue
 		}
-		if strings.HasPrefix(p, "server_max_window_bits=") {
+		if strings.HasPrefix(p, "server_max_window_bits=") && validWindowBits(strings.TrimPrefix(p, "server_max_window_bits=")) {
 			// We can't adjust the deflate window, but decoding with a larger window is acceptable.
 			continue
 		}
